@@ -798,7 +798,7 @@ func (w *World) atAsserts(fr *Frame, st *State, kind string, ins ssa.Instruction
 			if len(props) == 0 {
 				props = fr.contract.Props
 			}
-			o := w.oblige("assert", fmt.Sprintf("at.%s%d.%s", kind, ord, as.Clause.Label), st.cond, w.evalBool(env, as.Clause.Expr), as.Clause.Star, props)
+			o := w.oblige("assert", fmt.Sprintf("at.%s%d.%s", kind, ord, as.Clause.Label), st.cond, w.skolemGoal(env, as.Clause.Expr), as.Clause.Star, props)
 			o.Pos = as.Clause.Line
 		}
 	}
